@@ -287,6 +287,11 @@ def run_jobs(jobs, seed, log):
                 problems.append("%s shard %d: watchdog (%ds) fired" % (pr.job.name, pr.shard, pr.job.timeout))
                 continue
             cause = classify_death(err_text)
+            if cause in ("lsan", "asan") and "LeakSanitizer" in err_text and "ERROR: AddressSanitizer" not in err_text and have_stats and any(l.get("t") == "viol" for l in out_lines):
+                # the worker finished and reported violations itself; after a violation the harness
+                # deliberately leaks the queue it no longer understands, which is what LSan sees at exit
+                log.write("   (LeakSanitizer report at exit after reported violations: ignored)\n")
+                continue
             if cause is None:
                 problems.append("%s shard %d: died rc=%s without a recognisable report (see %s)" % (pr.job.name, pr.shard, rc, pr.err_path))
                 continue
